@@ -31,7 +31,7 @@ Definition analyze (i : instr) (addr : Z) : option binfo :=
       match i_ops i with
       | [OImm16 v] => mk (fb ++ [(ty, Some (Z.lor (Z.of_N v) (Z.land addr 16711680)))])
       | [OImm20 lo mid hi] => mk (fb ++ [(ty, Some (Z.of_N (imm20 lo mid hi)))])
-      | _ => mk fb
+      | _ => mk (fb ++ [(BUnresolved, None)])               (* JP r3 / JP (n) *)
       end
   | I_JP_Rel =>
       let fb := match d_cond e with Some _ => [(BFalse, Some (addr + len))] | None => [] end in
